@@ -87,6 +87,9 @@ pub struct CryptDict {
     #[pdf(key="StmF")]
     default_crypt_filter: Option<Name>,
 
+    #[pdf(key="StrF")]
+    string_filter: Option<Name>,
+
     #[pdf(key="EncryptMetadata", default="true")]
     encrypt_metadata: bool,
 
@@ -146,6 +149,9 @@ pub struct Decoder {
     /// Whether the metadata is encrypted, as indicated by /EncryptMetadata
     /// in the /Encrypt dictionary.
     encrypt_metadata: bool,
+    /// Whether strings are stored as they are: the crypt filter for strings (/StrF) of a V 4 or V 5
+    /// dictionary is /Identity, which is also its default
+    strings_identity: bool,
 }
 impl Decoder {
     pub fn default(dict: &CryptDict, id: &[u8]) -> Result<Decoder> {
@@ -164,10 +170,26 @@ impl Decoder {
             encrypt_indirect_object: None,
             metadata_indirect_object: None,
             encrypt_metadata,
+            strings_identity: false,
         }
     }
 
+    /// Decrypts a string of object `id`: like `decrypt`, unless the strings of the document are not encrypted
+    pub fn decrypt_string<'buf>(&self, id: PlainRef, data: &'buf mut [u8]) -> Result<&'buf [u8]> {
+        if self.strings_identity {
+            return Ok(data);
+        }
+        self.decrypt(id, data)
+    }
+
     pub fn from_password(dict: &CryptDict, id: &[u8], pass: &[u8]) -> Result<Decoder> {
+        let mut decoder = Self::from_password_streams(dict, id, pass)?;
+        // streams and strings have a crypt filter each; the one for strings defaults to /Identity
+        decoder.strings_identity = dict.v >= 4 && matches!(dict.string_filter.as_ref().map(|n| n.as_str()), None | Some("Identity"));
+        Ok(decoder)
+    }
+
+    fn from_password_streams(dict: &CryptDict, id: &[u8], pass: &[u8]) -> Result<Decoder> {
         fn compute_u_rev_2(key: &[u8]) -> Vec<u8> {
             // algorithm 4
             let mut data = PADDING.to_vec();
